@@ -1134,6 +1134,80 @@ static void kleinSeam(const Node &nd, const ob::State *a, const ob::State *b, bo
         for (std::size_t i = 0; i < nd.sub.size(); ++i)
             kleinSeam(nd.sub[i], a->as<ob::CompoundState>()->components[i], b->as<ob::CompoundState>()->components[i], seam);
 }
+// largest coordinate separation of a pair in nano-units (angles on the circle, quaternions: chord up to sign)
+static long long separation(const Node &nd, const ob::State *a, const ob::State *b)
+{
+    double sep = 0;
+    walk2(nd, const_cast<ob::State *>(a), b, [&](const Node &l, ob::State *x, const ob::State *y) {
+        if (l.k == "SO2")
+        {
+            double d = std::fabs(x->as<ob::SO2StateSpace::StateType>()->value - y->as<ob::SO2StateSpace::StateType>()->value);
+            sep = std::max(sep, std::min(d, 2 * PI - d));
+        }
+        else if (l.k == "SO3")
+        {
+            const double *p = &x->as<ob::SO3StateSpace::StateType>()->x;
+            const double *q = &y->as<ob::SO3StateSpace::StateType>()->x;
+            double m = 0, pl = 0;
+            for (int i = 0; i < 4; ++i)
+            {
+                m += (p[i] - q[i]) * (p[i] - q[i]);
+                pl += (p[i] + q[i]) * (p[i] + q[i]);
+            }
+            sep = std::max(sep, std::sqrt(std::min(m, pl)));
+        }
+        else if (l.k == "Disc")
+            sep = std::max(sep, std::fabs((double)x->as<ob::DiscreteStateSpace::StateType>()->value -
+                                          (double)y->as<ob::DiscreteStateSpace::StateType>()->value));
+        else
+        {
+            int c;
+            double *p = slots(l, x, c);
+            double *q = slots(l, const_cast<ob::State *>(y), c);
+            for (int i = 0; i < c; ++i)
+                sep = std::max(sep, std::fabs(p[i] - q[i]));
+        }
+    });
+    return (long long)std::min(2.0e9, std::ceil(sep * 1e9));
+}
+
+// satisfiesBounds as far as the property can ask for it: the curves of the car-like spaces leave the
+// R^2 box by construction (motion validators check that), so only their heading is judged there
+static bool inBoundsScoped(const Node &nd, const ob::State *s)
+{
+    if (nd.k == "Wrap")
+        return inBoundsScoped(nd.sub[0], s->as<ob::WrapperStateSpace::StateType>()->getState());
+    if (nd.k == "Dubins" || nd.k == "RS")
+        return nd.sub[1].sp->satisfiesBounds(s->as<ob::CompoundState>()->components[1]);
+    return nd.sp->satisfiesBounds(s);
+}
+
+// sum over the SO(3) leaves of the product of the weights on their path
+static double so3Weight(const Node &nd, double w)
+{
+    if (nd.k == "SO3")
+        return w;
+    if (nd.k == "Wrap")
+        return so3Weight(nd.sub[0], w);
+    double r = 0;
+    if (nd.plain)
+    {
+        auto *cs = nd.sp->as<ob::CompoundStateSpace>();
+        for (std::size_t i = 0; i < nd.sub.size(); ++i)
+            r += so3Weight(nd.sub[i], w * cs->getSubspaceWeight(i));
+    }
+    return r;
+}
+static bool hasKind(const Node &nd, const std::string &k)
+{
+    if (nd.k == k)
+        return true;
+    for (auto &c : nd.sub)
+        if (hasKind(c, k))
+            return true;
+    return false;
+}
+
 static json pairFlags(const Node &nd, const ob::State *a, const ob::State *b)
 {
     bool seam = false, anti = false, near = false, allSame = true, allNear = true, bound = false, farSign = false;
@@ -1232,12 +1306,26 @@ static json spaceEvent(const Shipped &sh, const Node &nd)
     long tol = 2;
     if (sh.floatPrec)
         tol += (long)std::ceil(FLT_EPSILON * ext * 1e6);
+    // the quaternion distance is 0 above |<p,q>| > 1 - 1e-9 (MAX_QUATERNION_NORM_ERROR): it resolves
+    // rotations only down to acos(1 - 1e-9) = 4.47e-5 rad
+    tol += (long)std::ceil(45.0 * so3Weight(nd, 1.0));
+    // the space's own resolution (nano-units): pairs closer than this in every coordinate need not have
+    // a positive distance (Dubins / Reeds-Shepp shortcut below 1e-6, quaternion threshold, float sphere)
+    long res = 0;
+    if (hasKind(nd, "Dubins") || hasKind(nd, "RS"))
+        res = std::max(res, 2000L);
+    if (hasKind(nd, "SO3"))
+        res = std::max(res, 50000L);
+    if (sh.floatPrec)
+        res = std::max(res, 100000L);
+    bool yawOnly = hasKind(nd, "Dubins") || hasKind(nd, "RS");
     json ev{{"e", "Space"},          {"name", sh.name},
             {"metric", nd.sp->isMetricSpace()}, {"sym", nd.sp->hasSymmetricDistance()},
             {"ext", vt::tlcInt(std::llround(ext * 1e6))}, {"tol", tol},
             {"extChecked", sh.extChecked},      {"geo", sh.geo},
             {"exempt", nd.sp->isDiscrete() || nd.sp->isHybrid()},
-            {"prec", sh.floatPrec ? "float" : "double"}, {"plain", false}, {"w", json::array()}};
+            {"prec", sh.floatPrec ? "float" : "double"}, {"plain", false}, {"w", json::array()},
+            {"res", res}, {"boundsJudged", yawOnly ? "heading" : "all"}};
     if (ext * 1e6 * 64 > 2.0e9)
     {
         fprintf(stderr, "FRAMEWORK: extent of %s too large for 32-bit fixed point laws\n", sh.name.c_str());
@@ -1498,7 +1586,8 @@ static int record(const std::string &out, long n, const std::string &filter, boo
                               {"eqab", nd.sp->equalStates(a(), b())}, {"eqbc", nd.sp->equalStates(b(), c())},
                               {"eqac", nd.sp->equalStates(a(), c())},
                               {"posab", dab > 0 && dba > 0}, {"posbc", dbc > 0 && dcb > 0}, {"posac", dac > 0 && dca > 0},
-                              {"parts", json::array()}};
+                              {"sab", separation(nd, a(), b())}, {"sbc", separation(nd, b(), c())},
+                              {"sac", separation(nd, a(), c())}, {"parts", json::array()}};
                     if (cn->plain)
                     {
                         const ob::State *ca = a(), *cb = b();
@@ -1535,7 +1624,7 @@ static int record(const std::string &out, long n, const std::string &filter, boo
                         nd.sp->interpolate(af(), b(), t, af());
                         nd.sp->interpolate(a(), bt(), t, bt());
                         ks.push_back(k);
-                        inb.push_back(nd.sp->satisfiesBounds(pt()) ? 1 : 0);
+                        inb.push_back(inBoundsScoped(nd, pt()) ? 1 : 0);
                         dat.push_back(fx(D(a(), pt()), nf));
                         alF.push_back(sameBits(nd, af(), pt()) ? 1 : 0);
                         alT.push_back(sameBits(nd, bt(), pt()) ? 1 : 0);
@@ -1556,7 +1645,7 @@ static int record(const std::string &out, long n, const std::string &filter, boo
                               {"dab", fx(dab, nf)}, {"d0", fx(D(p0(), a()), nf)}, {"d1", fx(D(p1(), b()), nf)},
                               {"ks", ks}, {"inb", inb}, {"dat", dat}, {"alF", alF}, {"alT", alT},
                               {"s", ksn}, {"u", kun}, {"rep", fx(D(pr2(), pq()), nf)},
-                              {"inbS", nd.sp->satisfiesBounds(ps())}, {"inbR", nd.sp->satisfiesBounds(pr2())},
+                              {"inbS", inBoundsScoped(nd, ps())}, {"inbR", inBoundsScoped(nd, pr2())},
                               // some interpolant of this probe carries the angle +pi (D2)
                               {"plusPi", pp || hasPlusPiLeaf(nd, ps()) || hasPlusPiLeaf(nd, pr2())}};
                     ev["repro"] = "a=" + show(nd, a()) + " b=" + show(nd, b()) + " s=" + std::to_string(ksn) + "/64 u=" + std::to_string(kun) + "/64";
